@@ -50,6 +50,7 @@ type LockAnalysis struct {
 	byFunc   map[*types.Func]*unit
 	lockVar  map[string]*types.Var // lock path -> mutex field
 	nodeUnit map[ast.Node]*unit
+	escapes  map[*unit]*Sol
 }
 
 func lockFactsOf(f Facts) []string {
@@ -465,6 +466,11 @@ func (la *LockAnalysis) solve() {
 					if before == nil {
 						continue // unreachable call site
 					}
+					// a method called on an object that is still private to the caller (a graph it
+					// has just built): whatever the method touches through its receiver needs no lock
+					if la.privateReceiverAt(cs) {
+						continue
+					}
 					tr := Facts{}
 					for _, k := range lockFactsOf(before) {
 						if t, ok := la.translate(cs, k); ok {
@@ -713,4 +719,51 @@ func holds(f Facts, path, mode string) bool {
 		return true
 	}
 	return mode == "R" && f.Has("L:"+path+":R")
+}
+
+// privateReceiverAt: the call is a method call whose receiver is a local bound to
+// a fresh allocation that has not escaped before the call.
+func (la *LockAnalysis) privateReceiverAt(cs *callSite) bool {
+	rcv, _, isM := methodCall(cs.call)
+	if !isM || cs.target == nil || cs.target.lit != nil || cs.target.recvN == "" {
+		return false
+	}
+	id, ok := unparen(rcv).(*ast.Ident)
+	if !ok {
+		return false
+	}
+	info := cs.in.pkg.TypesInfo
+	o := info.Uses[id]
+	if o == nil {
+		return false
+	}
+	fresh := false
+	ast.Inspect(cs.in.body, func(n ast.Node) bool {
+		if as, ok := n.(*ast.AssignStmt); ok && len(as.Lhs) == len(as.Rhs) {
+			for i, l := range as.Lhs {
+				if objOf(info, l) != o {
+					continue
+				}
+				if litOf(as.Rhs[i]) != nil {
+					fresh = true
+				}
+				if c, isC := unparen(as.Rhs[i]).(*ast.CallExpr); isC && isFreshConstructorCall(info, c) {
+					fresh = true
+				}
+			}
+		}
+		return true
+	})
+	if !fresh {
+		return false
+	}
+	if la.escapes == nil {
+		la.escapes = map[*unit]*Sol{}
+	}
+	sol := la.escapes[cs.in]
+	if sol == nil {
+		sol = freshEscapes(cs.in)
+		la.escapes[cs.in] = sol
+	}
+	return !sol.Before[cs.node].Has("esc:" + o.Name())
 }
